@@ -189,6 +189,48 @@ func c19Exec(cs fw.Case) *fw.Fail {
 			return fail
 		}
 	}
+	// the two-step API with different writers: the program's own lines stay with the writer given when the
+	// Prog was made; the writer given to Execute receives introspection lines only
+	for mask := 1; mask < 8; mask++ {
+		d, t, s := mask&1 != 0, mask&2 != 0, mask&4 != 0
+		for _, loaded := range []bool{false, true} {
+			var fail *fw.Fail
+			func() {
+				defer func() {
+					if x := recover(); x != nil {
+						fail = fw.Failf("options never make a call panic", "Execute with its own writer panics: %v", x)
+					}
+				}()
+				var outA, logA, outB bytes.Buffer
+				p, err := bcl.Parse([]byte(src), "input", bcl.OptOutput(&outA), bcl.OptLogger(&logA))
+				if err != nil {
+					return
+				}
+				if loaded {
+					var dmp bytes.Buffer
+					if p.Dump(&dmp) != nil {
+						return
+					}
+					if p, err = bcl.LoadProg(&dmp, "input", bcl.OptOutput(&outA), bcl.OptLogger(&logA)); err != nil {
+						return
+					}
+				}
+				bcl.Execute(p, bcl.OptDisasm(d), bcl.OptTrace(t), bcl.OptStats(s), bcl.OptOutput(&outB))
+				base := runWith(src, 1, false, false, false)
+				// (which of the two writers receives the trace is not specified; the program's own lines belong to A)
+				progA, _, _, _, _ := stripIntrospection(outA.String())
+				progB, _, _, _, _ := stripIntrospection(outB.String())
+				if !multiline && (progA != base.out || progB != "") {
+					fail = fw.Failf(fmt.Sprintf("with Execute(disasm=%v trace=%v stats=%v, OptOutput(B)) on a Prog made with OptOutput(A) (loaded=%v): the program's lines %q reach A, B holds listing/trace/statistics lines only", d, t, s, loaded, base.out),
+						"program lines in A: %q; in B: %q", fw.Trunc(progA, 300), fw.Trunc(progB, 300))
+				}
+				fw.Tally("option_runs", 1)
+			}()
+			if fail != nil {
+				return fail
+			}
+		}
+	}
 	// structure of the listings, against the independent decoder and the reference VM
 	dp, _, _, status := compileDecode(src)
 	if status == "rejected" {
